@@ -1,6 +1,7 @@
 //! C20: derived JSON / equality / ordering / hashing / clone.
 //!
-//! `vharness run c20 table` — one line per case: `<model|class> <D1,D2,...|->`. Runs the REAL
+//! `vharness run c20 table` — one line per case: `<model|class|modelm|classm> <D1,D2,...|->` (the
+//!   `m` kinds add one method to the declaration). Output `names|<to_json emitted 0/1>|<from_json emitted 0/1>`. Runs the REAL
 //!   lexer, parser, type checker, lowering (`lower_model`/`lower_class` + `extract_derives`) and
 //!   emitter (`emit_struct`) on a declaration carrying `@derive(D1, D2, ...)` and prints the names
 //!   of the `#[derive(...)]` attribute of the emitted struct, in order, comma separated
@@ -64,6 +65,31 @@ fn derive_names_of(code: &str, struct_name: &str) -> Result<Vec<String>, String>
     Err(format!("struct {} not emitted", struct_name))
 }
 
+/// does an inherent `impl <name> { .. }` of the emitted file define to_json / from_json?
+fn json_methods_of(code: &str, struct_name: &str) -> (bool, bool) {
+    let (mut tj, mut fj) = (false, false);
+    if let Ok(file) = syn::parse_file(code) {
+        for item in &file.items {
+            if let syn::Item::Impl(im) = item {
+                let is_target = matches!(&*im.self_ty, syn::Type::Path(p) if p.path.is_ident(struct_name));
+                if im.trait_.is_none() && is_target {
+                    for it in &im.items {
+                        if let syn::ImplItem::Fn(f) = it {
+                            if f.sig.ident == "to_json" {
+                                tj = true;
+                            }
+                            if f.sig.ident == "from_json" {
+                                fj = true;
+                            }
+                        }
+                    }
+                }
+            }
+        }
+    }
+    (tj, fj)
+}
+
 fn table_case(line: &str) -> String {
     let mut it = line.split_whitespace();
     let kind = it.next().unwrap_or("model");
@@ -73,14 +99,22 @@ fn table_case(line: &str) -> String {
     if !list.is_empty() {
         src.push_str(&format!("@derive({})\n", list.join(", ")));
     }
-    src.push_str(&format!("{} M:\n    x: int\n", kind));
+    let with_method = kind == "classm" || kind == "modelm";
+    let kw = if kind.starts_with("class") { "class" } else { "model" };
+    src.push_str(&format!("{} M:\n    x: int\n", kw));
+    if with_method {
+        src.push_str("\n    def nm(self) -> int:\n        return 1\n");
+    }
     if list.iter().any(|d| *d == "Validate") {
         src.push_str("\n    def validate(self) -> Result[M, str]:\n        return Ok(self)\n");
     }
     src.push_str("\ndef main() -> None:\n    pass\n");
     match catch(|| compile(&src)) {
         Ok(Ok((code, _, _, _))) => match derive_names_of(&code, "M") {
-            Ok(n) => n.join(","),
+            Ok(n) => {
+                let (tj, fj) = json_methods_of(&code, "M");
+                format!("{}|{}|{}", n.join(","), tj as u8, fj as u8)
+            }
             Err(e) => format!("ERR {}", e),
         },
         Ok(Err(e)) => format!("ERR {}", e),
